@@ -641,4 +641,70 @@ theorem reads_history_free {β : Type} [Inhabited β] (tab : Tab) (hr : ranked t
     rw [hv, List.map_append, ← List.length_map (f := specOf (rank tab) (defsOf tab f)) (as := before.flatMap (expandOp tab)),
       List.drop_left]
 
+/-! ### normal attribute lookup versus `__getattr__` -/
+
+open Generated.CalcGlue
+
+/-- the two interface classes as translated NOW -/
+def volumeBaseShape : AttrShape := shapeOf classNames initAttrs laterAttrs lazyCacheAttrs "CijVolumeBaseInterface"
+def pressureBaseShape : AttrShape := shapeOf classNames initAttrs laterAttrs lazyCacheAttrs "CijPressureBaseInterface"
+
+/-- every name the class or one of its methods can put in the way of `__getattr__` -/
+def AttrShape.all (sh : AttrShape) : List String := sh.classNames ++ sh.initAttrs ++ sh.laterAttrs ++ sh.lazyCaches
+
+theorem defined_mem (sh : AttrShape) (name : String) (h : sh.defined name = true) : name ∈ sh.all := by
+  simp only [AttrShape.defined, AttrShape.always, AttrShape.sometimes, Bool.or_eq_true, Bool.and_eq_true,
+    List.contains_iff_mem] at h
+  simp only [AttrShape.all, List.mem_append]
+  rcases h with (h | h) | ⟨_, h | h⟩
+  · exact Or.inl (Or.inl (Or.inl h))
+  · exact Or.inl (Or.inl (Or.inr h))
+  · exact Or.inl (Or.inr h)
+  · exact Or.inr h
+
+/-- normal lookup is not dynamic: no base class (so the MRO is the class and `object`), no `__getattribute__` / `__setattr__` /
+`__slots__` / `__dict__` / `setattr` / `delattr` / `vars` anywhere in the classes, no attribute stored on another object than `self`,
+`LazyProperty` is the one of the `lazy_property` package (cache attribute `_<name>` on the instance) -/
+def StaticLookup : Prop :=
+  (∀ e ∈ classBases, e.2 = []) ∧ dynamicAttrUses = [] ∧ foreignAttrStores = [] ∧
+  (∀ e ∈ classNames, ∀ n ∈ e.2, n ≠ "__getattribute__" ∧ n ≠ "__setattr__" ∧ n ≠ "__delattr__" ∧ n ≠ "__slots__" ∧ n ≠ "__dict__") ∧
+  lazyPropertyImport = ["lazy_property.LazyProperty"] ∧
+  (∀ e ∈ lazyCacheAttrs, e.2 = ((methodFacts.filter fun m => m.cls == e.1 && m.kind == "LazyProperty").map fun m => "_" ++ m.name))
+
+instance : Decidable StaticLookup := by unfold StaticLookup; infer_instance
+
+/-- an accepted name begins with the prefix letter, never with an underscore -/
+theorem accepted_not_dunder (name : String) (q : Parsed) (h : matchName regexParts getattrMatchFn name.toList = some q) :
+    dunderLike name = false := by
+  obtain ⟨⟨hp, _, _⟩, u, _, nl, _, hn⟩ := (matchName_gen _ q).1 h
+  unfold dunderLike
+  rw [hn]
+  rcases hp with hp | hp <;> rw [hp] <;> cases u <;> simp
+
+/-- if none of the finitely many names of the shape is in the language of the pattern, no name of the language is defined -/
+theorem accepted_not_defined (sh : AttrShape) (hall : ∀ d ∈ sh.all, matchName regexParts getattrMatchFn d.toList = none)
+    (name : String) (q : Parsed) (h : matchName regexParts getattrMatchFn name.toList = some q) : sh.defined name = false := by
+  cases hd : sh.defined name with
+  | false => rfl
+  | true => rw [hall name (defined_mem sh name hd)] at h; cases h
+
+theorem not_defined_split (sh : AttrShape) (name : String) (h : sh.defined name = false) :
+    sh.always name = false ∧ sh.sometimes name = false := by
+  simp only [AttrShape.defined, Bool.or_eq_false_iff] at h
+  exact h
+
+/-- `getattr` on a name the shape does not define and the interpreter does not provide IS `__getattr__` -/
+theorem getattrOf_undefined {ρ : Type} (sh : AttrShape) (builtin : String → Bool) (f : String → ρ) (name : String)
+    (hd : sh.defined name = false) (hb : builtin name = false) : getattrOf sh builtin f name = .fallback (f name) := by
+  obtain ⟨h1, h2⟩ := not_defined_split sh name hd
+  simp [getattrOf, h1, h2, hb]
+
+theorem getattrOf_always {ρ : Type} (sh : AttrShape) (builtin : String → Bool) (f : String → ρ) (name : String)
+    (hd : sh.always name = true) : getattrOf sh builtin f name = .attribute name := by
+  simp [getattrOf, hd]
+
+/-- the names of the CURRENT interface classes are outside the language of the CURRENT pattern (each checked with the model's matcher) -/
+theorem volumeBase_names_rejected : ∀ d ∈ volumeBaseShape.all, matchName regexParts getattrMatchFn d.toList = none := by decide
+theorem pressureBase_names_rejected : ∀ d ∈ pressureBaseShape.all, matchName regexParts getattrMatchFn d.toList = none := by decide
+
 end Cij.CalcGlue
